@@ -17,6 +17,10 @@ pub struct Match {
 }
 
 impl Match {
+    pub(crate) fn new(expression: InstructionWithStr, arms: Box<[MatchArm]>) -> Self {
+        Self { expression, arms }
+    }
+
     pub fn create_instruction(
         pair: Pair<Rule>,
         local_variables: &mut LocalVariables,
